@@ -533,6 +533,7 @@ func c16WriteBits(c *Ctx) {
 }
 
 var c16Canaries = []Canary{
+	{Name: "r5-locks-fetched-per-ref", ExpectKey: "C16.R1#locks-of-all-refs", Edits: []Edit{{File: "commands/uploader.go", Find: "\tverifyLocksForUpdates(ctx.lockVerifier, updates)\n", Repl: ""}}},
 	{Name: "r4-lock-path-from-cwd", ExpectKey: "C16.R2#lock-path", Edits: []Edit{{File: "locking/locks.go", Find: "return filepath.Join(c.LocalWorkingDir, p), nil", Repl: "return filepath.Abs(p)"}}},
 	{Name: "can-upload-always", ExpectKey: "C16.R1#locked-by-them-not-uploaded", Edits: []Edit{{File: "commands/uploader.go", Find: "			canUpload = !c.lockVerifier.Enabled()", Repl: "			canUpload = !c.lockVerifier.Enabled() || p.Size > 0"}}},
 	{Name: "drop-exit", ExpectKey: "C16.R1#push-exits-on-unowned-locks", Edits: []Edit{{File: "commands/uploader.go", Find: "		if c.lockVerifier.Enabled() {\n			Exit(tr.Tr.Get(\"Cannot update locked files.\"))\n		} else {", Repl: "		if c.lockVerifier.Enabled() && !c.allowMissing {\n			Exit(tr.Tr.Get(\"Cannot update locked files.\"))\n		} else {"}}},
